@@ -335,7 +335,7 @@ spif_array_comp(spif_array_t self, spif_array_t other)
     spif_listidx_t i;
 
     SPIF_OBJ_COMP_CHECK_NULL(self, other);
-    for (i = 0; i < self->len; i++) {
+    for (i = 0; (i < self->len) && (i < other->len); i++) {
         spif_cmp_t c;
 
         if (SPIF_OBJ_ISNULL(self->items[i]) && SPIF_OBJ_ISNULL(other->items[i])) {
@@ -349,6 +349,10 @@ spif_array_comp(spif_array_t self, spif_array_t other)
         if (!SPIF_CMP_IS_EQUAL(c)) {
             return c;
         }
+    }
+    /* Equal as far as the shorter one goes.  The shorter one sorts first. */
+    if (self->len != other->len) {
+        return ((self->len < other->len) ? (SPIF_CMP_LESS) : (SPIF_CMP_GREATER));
     }
     return SPIF_CMP_EQUAL;
 }
